@@ -67,7 +67,7 @@ theorem runStmts_mem (env : Env) (T : Nat) (tr : List TStmt) : ∀ (stmts : List
     simp only [runStmts, stmtPaths]
     split
     · simp [Flow.abs]
-    · exact List.mem_cons_of_mem _ (runStmts_mem env T tr rest { s with t := s.t + (1 + (env s.t).delay) })
+    · exact List.mem_cons_of_mem _ (runStmts_mem env T tr rest { s with t := s.t + (env s.t).delay + 1 })
 
 theorem mem_retsOf : ∀ (fs : List AFlow) (r : Ret) (m : Mine) (l : Option TRes),
     AFlow.ret r m l ∈ fs → (r, m, l) ∈ retsOf fs
@@ -164,47 +164,68 @@ theorem runStmts_time (env : Env) (T : Nat) (tr : List TStmt) : ∀ (stmts : Lis
     · cases h
     · have := runStmts_time env T tr rest _ s' h; simp only at this; omega
 
-/-- a round that contains the select goes on only while the context is not over, and takes time -/
-theorem runStmts_progress (env : Env) (T : Nat) (tr : List TStmt) : ∀ (stmts : List RStmt) (s s' : LSt),
-    hasSelect stmts = true → runStmts env T tr stmts s = .cont s' → s.t < s'.t ∧ s.t < T
+/-- from instant `N` on a tie between the context and the timer is not decided for the timer — or there is no tie
+    of that kind because the retry delay is positive -/
+def Fair (env : Env) (N : Nat) : Prop := ∀ t, N ≤ t → (env t).timerWins = false ∨ 0 < (env t).delay
+
+theorem select_cont {T t d : Nat} {tw : Bool} (h : selectReturns T t d tw = false) (hf : tw = false ∨ 0 < d) : t < T := by
+  simp only [selectReturns, Bool.and_eq_false_iff, decide_eq_false_iff_not, Bool.not_eq_false', Bool.and_eq_true,
+    Bool.or_eq_true, decide_eq_true_eq] at h
+  rcases h with h | ⟨h1, h2⟩
+  · omega
+  · rcases hf with a | a
+    · rw [a] at h1; cases h1
+    · rcases h2 with e | e <;> omega
+
+/-- a round that contains the select takes time, and (from `N` on, under fairness) goes on only while the context
+    is not over -/
+theorem runStmts_progress (env : Env) (T N : Nat) (hf : Fair env N) (tr : List TStmt) : ∀ (stmts : List RStmt) (s s' : LSt),
+    hasSelect stmts = true → runStmts env T tr stmts s = .cont s' → s.t < s'.t ∧ (N ≤ s.t → s.t < T)
   | [], _, _, hs, _ => by simp [hasSelect] at hs
   | .attempt :: rest, s, s', hs, h => by
     simp only [runStmts] at h
-    have := runStmts_progress env T tr rest _ s' (by simpa [hasSelect] using hs) h
+    have := runStmts_progress env T N hf tr rest _ s' (by simpa [hasSelect] using hs) h
     have := runTry_time env tr s.t s.mine []
     simp only at *; omega
   | .ifRet c r :: rest, s, s', hs, h => by
     simp only [runStmts] at h
     split at h
     · cases h
-    · have := runStmts_progress env T tr rest _ s' (by simpa [hasSelect] using hs) h
+    · have := runStmts_progress env T N hf tr rest _ s' (by simpa [hasSelect] using hs) h
       simp only at this; omega
   | .selectCtxOrTimer r :: rest, s, s', _, h => by
     simp only [runStmts] at h
     split at h
     · cases h
-    · have := runStmts_time env T tr rest _ s' h
-      simp only at this; omega
+    · rename_i hsel
+      have := runStmts_time env T tr rest _ s' h
+      simp only at this
+      refine ⟨by omega, fun hn => ?_⟩
+      exact select_cont (by simpa using hsel) (hf s.t hn)
 
-theorem runLoop_returns (env : Env) (T : Nat) (tr : List TStmt) (body : List RStmt) (hs : hasSelect body = true) :
-    ∀ (n : Nat) (s : LSt), T - s.t < n → (runLoop env T tr body n s).isSome = true
+theorem runLoop_returns (env : Env) (T N : Nat) (hf : Fair env N) (tr : List TStmt) (body : List RStmt) (hs : hasSelect body = true) :
+    ∀ (n : Nat) (s : LSt), T + N - s.t < n → (runLoop env T tr body n s).isSome = true
   | 0, _, h => by omega
   | n + 1, s, h => by
     simp only [runLoop]
-    cases hf : runStmts env T tr body s with
+    cases hr : runStmts env T tr body s with
     | ret r s1 => simp
     | cont s1 =>
-      have := runStmts_progress env T tr body s s1 hs hf
-      exact runLoop_returns env T tr body hs n s1 (by omega)
+      have := runStmts_progress env T N hf tr body s s1 hs hr
+      refine runLoop_returns env T N hf tr body hs n s1 ?_
+      by_cases hn : N ≤ s.t
+      · have := this.2 hn; omega
+      · omega
 
-/-- a call whose loop body contains the select returns after at most T - t0 + 1 rounds -/
-theorem run_returns (env : Env) (T : Nat) (tr : List TStmt) (lp : Loop) (hs : hasSelect lp.body = true) (t0 : Nat) :
+/-- a call whose loop body contains the select returns after at most T + N + 1 rounds, `N` the instant from which
+    ties are fair (0 when the retry delay is positive) -/
+theorem run_returns (env : Env) (T N : Nat) (hf : Fair env N) (tr : List TStmt) (lp : Loop) (hs : hasSelect lp.body = true) (t0 : Nat) :
     ∃ fuel, (run env T tr lp fuel t0).isSome = true := by
-  refine ⟨T + 1, ?_⟩
+  refine ⟨T + N + 1, ?_⟩
   simp only [run]
-  cases hf : runStmts env T tr lp.pre ⟨t0, .none, none⟩ with
+  cases hr : runStmts env T tr lp.pre ⟨t0, .none, none⟩ with
   | ret r s => simp
-  | cont s => exact runLoop_returns env T tr lp.body hs (T + 1) s (by omega)
+  | cont s => exact runLoop_returns env T N hf tr lp.body hs (T + N + 1) s (by omega)
 
 /-- whatever the calls of the retry loop return (among `outs`), a constructor ends in one of the enumerated ways -/
 theorem runNew_mem (outs : CF → List (Ret × Mine)) (call : CF → Ret × Mine) (hc : ∀ f, call f ∈ outs f)
